@@ -110,12 +110,12 @@ func (round *round1) Update() (bool, *tss.Error) {
 		r1msg := round.temp.dgRound1Messages[0].Content().(*DGRound1Message)
 		candidate, err := r1msg.UnmarshalEDDSAPub(round.Params().EC())
 		if err != nil {
-			return false, round.WrapError(errors.New("unable to unmarshal the eddsa pub key"), msg.GetFrom())
+			return false, round.WrapError(errors.New("unable to unmarshal the eddsa pub key"), round.temp.dgRound1Messages[0].GetFrom())
 		}
 		if round.save.EDDSAPub != nil &&
 			!candidate.Equals(round.save.EDDSAPub) {
 			// uh oh - anomaly!
-			return false, round.WrapError(errors.New("eddsa pub key did not match what we received previously"), msg.GetFrom())
+			return false, round.WrapError(errors.New("eddsa pub key did not match what we received previously"), round.temp.dgRound1Messages[0].GetFrom())
 		}
 		round.save.EDDSAPub = candidate
 	}
